@@ -145,7 +145,15 @@ def main(argv=None):
     failed = [o for o in obs if res[o.id].status == 'failed']
     unknown = [o for o in obs if res[o.id].status in ('unknown', 'error') and o.expect == 'valid']
     guard_unknown = [o for o in obs if res[o.id].status in ('unknown', 'error') and o.expect != 'valid']
-    faults = [o for o in failed if o.expect in ('sat', 'refutable')]
+    faults = [o for o in failed if o.expect == 'sat']
+    # canaries: a function (configuration) is vacuous only if `ensures False` is provable on ALL its return paths
+    groups = {}
+    for o in obs:
+        if o.expect == 'refutable':
+            groups.setdefault((o.func, json.dumps(o.config or None, sort_keys=True)), []).append(o)
+    for key, members in groups.items():
+        if all(res[o.id].status == 'failed' for o in members):
+            faults.append(members[0])
     real_fail = [o for o in failed if o.expect == 'valid']
     known = load_known()
     violations = []
